@@ -127,6 +127,28 @@ class Report:
     def info(self, msg: str):
         self.infos.append(msg)
 
+    def lenient(self, decided_by: str):
+        """Context manager for proof rules whose obligation has already been decided another way (e.g. by evaluating the extracted
+        term on a separating grid): a rule that fails inside only says that the *form* is not the one it can prove - it becomes an
+        informational line, not a violation (`decided_by` names what stands behind the verdict instead)."""
+        report = self
+
+        class _Lenient:
+            def __enter__(self_):
+                self_.n0 = len(report.violations)
+                self_.failed0 = {k: r.failed for k, r in report.rules.items()}
+                return self_
+
+            def __exit__(self_, et, ev, tb):
+                dropped = report.violations[self_.n0:]
+                del report.violations[self_.n0:]
+                for k, r in report.rules.items():
+                    r.failed = self_.failed0.get(k, 0)
+                for v in dropped:
+                    report.infos.append(f"form not recognised by proof rule {v.rule} ({v.instance[:80]}); obligation {decided_by}")
+                return False
+        return _Lenient()
+
     # ------------------------------------------------------------------ finish
     def has_unlisted_violation(self, known_path: Optional[Path] = None) -> bool:
         """Is there a violation that is not an open known finding (i.e. one that makes the run exit 1)?"""
